@@ -288,3 +288,39 @@ pub fn rtrees(d: usize, leaves: &[&str]) -> Vec<RTy> {
 }
 
 pub fn show(ts: &TypeStructure) -> String { format!("{:?}", ts) }
+
+
+/// true for a line that carries a time stamp (`2026-09-28T07:44`): the one part of a generated file that may differ between runs
+pub fn has_timestamp(l: &str) -> bool {
+    let b = l.as_bytes();
+    if b.len() < 16 { return false; }
+    for i in 0..=b.len() - 16 {
+        let w = &b[i..i + 16];
+        let d = |k: usize| w[k].is_ascii_digit();
+        if d(0) && d(1) && d(2) && d(3) && w[4] == b'-' && d(5) && d(6) && w[7] == b'-' && d(8) && d(9) && (w[10] == b'T' || w[10] == b' ') && d(11) && d(12) && w[13] == b':' && d(14) && d(15) { return true; }
+    }
+    false
+}
+
+/// generated text without the lines that carry a time stamp
+pub fn without_timestamps(s: &str) -> String { s.lines().filter(|l| !has_timestamp(l)).collect::<Vec<_>>().join("\n") }
+
+/// generated text without comments (`//` to the end of the line and `/* .. */`, outside string literals)
+pub fn without_comments(s: &str) -> String {
+    let cs: Vec<char> = s.chars().collect();
+    let mut out = String::new();
+    let mut i = 0;
+    while i < cs.len() {
+        let c = cs[i];
+        if c == '"' || c == '\'' || c == '`' {
+            let q = c; out.push(c); i += 1;
+            while i < cs.len() && cs[i] != q { if cs[i] == '\\' && i + 1 < cs.len() { out.push(cs[i]); i += 1; } out.push(cs[i]); i += 1; }
+            if i < cs.len() { out.push(cs[i]); i += 1; }
+            continue;
+        }
+        if c == '/' && cs.get(i + 1) == Some(&'/') { while i < cs.len() && cs[i] != '\n' { i += 1; } continue; }
+        if c == '/' && cs.get(i + 1) == Some(&'*') { i += 2; while i + 1 < cs.len() && !(cs[i] == '*' && cs[i + 1] == '/') { i += 1; } i += 2; continue; }
+        out.push(c); i += 1;
+    }
+    out.lines().map(|l| l.trim_end()).collect::<Vec<_>>().join("\n")
+}
